@@ -3,7 +3,7 @@
 patch=$1; shift
 cd /repo || exit 2
 if [ -n "$(git status --porcelain)" ]; then echo "/repo not clean"; exit 2; fi
-git apply "$patch" || { echo "patch does not apply"; exit 2; }
+[ -f "${patch%patch.diff}patch.rebased.diff" ] && patch="${patch%patch.diff}patch.rebased.diff"; git apply "$patch" || { echo "patch does not apply"; exit 2; }
 trap 'git -C /repo checkout -- . ; git -C /repo clean -fdq' EXIT
 for id in "$@"; do
   /verif/bin/htcheck -p "$id" -verif /tmp/try_verif 2>&1 | grep -E "VIOLATION|VIOLATED|UNDECIDED|^      |KNOWN|^C[0-9]+:" | head -${LINES_MAX:-30}
